@@ -4,6 +4,7 @@ import Driver.Search
 import Driver.Validate
 import Driver.Metrics
 import Driver.Retry
+import Driver.Embed
 
 namespace Driver
 
@@ -17,6 +18,7 @@ def dispatch (dom : String) (ops : Array String) : Array String :=
   | "validate" => Validate.runCase ops
   | "metrics" => Metrics.runCase ops
   | "retry" => Retry.runCase ops
+  | "embed" => Embed.runCase ops
   | _ => ops.map (fun _ => "unknown-domain")
 
 end Driver
